@@ -7,6 +7,7 @@ import (
 	"go/constant"
 	"go/types"
 	"math/big"
+	"sort"
 	"strings"
 
 	"golang.org/x/tools/go/ssa"
@@ -22,6 +23,7 @@ type SVal struct {
 	pkgName *types.PkgName
 	cellOf types.Type // set: the value is a pointer to a captured variable; the name denotes its content
 	lval   bool       // address of a struct-typed field reached by selection (denotes the struct stored there)
+	mdom, mval string // explicit contents of a map value (domain / values arrays) when passed into a spec function
 }
 
 // rvalue converts the address of an embedded struct (obtained by field selection) into
@@ -185,6 +187,15 @@ func (e *Env) eval(x Expr) SVal {
 	}
 	e.fail("cannot evaluate %s", exprString(x))
 	return SVal{}
+}
+
+// mapContents returns the domain and value arrays of a map value (in the state it was read in).
+func (e *Env) mapContents(v SVal, mt *types.Map) (dom, val string) {
+	if v.mdom != "" {
+		return v.mdom, v.mval
+	}
+	md, mv, _, _, _, _, _ := e.vc.mapTerms(e.stOf(v), mt)
+	return fmt.Sprintf("(select %s %s)", md, v.t), fmt.Sprintf("(select %s %s)", mv, v.t)
 }
 
 // contents returns the (Array Int T) holding the elements of a slice value.
@@ -805,9 +816,9 @@ func (e *Env) evalIndex(n *EIndex) SVal {
 		e.rangeSide(term, t.Elem())
 		return SVal{t: term, typ: t.Elem(), sort: vc.d.sortOf(t.Elem()), st: x.st}
 	case *types.Map:
-		k := e.eval(n.I)
-		md, mv, _, _, _, _, _ := vc.mapTerms(e.stOf(x), t)
-		term := fmt.Sprintf("(ite (select (select %s %s) %s) (select (select %s %s) %s) %s)", md, x.t, k.t, mv, x.t, k.t, vc.d.zero(t.Elem()))
+		k := e.rvalue(e.eval(n.I))
+		d, m := e.mapContents(x, t)
+		term := fmt.Sprintf("(ite (select %s %s) (select %s %s) %s)", d, k.t, m, k.t, vc.d.zero(t.Elem()))
 		e.rangeSide(term, t.Elem())
 		return SVal{t: term, typ: t.Elem(), sort: vc.d.sortOf(t.Elem()), st: x.st}
 	case *types.Pointer:
@@ -1056,6 +1067,21 @@ func (e *Env) evalCall(n *ECall) SVal {
 	case "arrof":
 		v := e.eval(n.Args[0])
 		return mathInt("(s-arr " + v.t + ")")
+	case "mk":
+		// mk("T", f1, f2, ...): struct value of type T with the given field values (positional)
+		T := e.parseType(typeArg(n.Args[0]))
+		s, ok := isStruct(T)
+		if !ok || s.NumFields() != len(n.Args)-1 {
+			e.fail("mk: %s is not a struct with %d fields", typeArg(n.Args[0]), len(n.Args)-1)
+		}
+		var fs []string
+		for _, a := range n.Args[1:] {
+			fs = append(fs, e.rvalue(e.eval(a)).t)
+		}
+		return e.mk(vc.d.mkStruct(T, fs), T, nil)
+	case "zero":
+		T := e.parseType(typeArg(n.Args[0]))
+		return e.mk(vc.d.zero(T), T, nil)
 	case "arrfresh":
 		// arrfresh(s, a): the backing array of slice s was allocated at or after allocation mark a
 		v := e.eval(n.Args[0])
@@ -1119,8 +1145,8 @@ func (e *Env) evalCall(n *ECall) SVal {
 		if !ok {
 			e.fail("has on non-map")
 		}
-		md, _, _, _, _, _, _ := vc.mapTerms(e.stOf(m), mt)
-		return mathBool(fmt.Sprintf("(select (select %s %s) %s)", md, m.t, k.t))
+		d, _ := e.mapContents(m, mt)
+		return mathBool(fmt.Sprintf("(select %s %s)", d, k.t))
 	case "fresh":
 		v := e.eval(n.Args[0])
 		t := v.t
@@ -1370,6 +1396,11 @@ func (e *Env) specFuncSig(sf *SpecFunc) (argSorts []string, ret string) {
 				argSorts = append(argSorts, "(Array Int "+e.vc.d.sortOf(sl.Elem())+")", "Int", "Int")
 				continue
 			}
+			if mt, ok := typ.Underlying().(*types.Map); ok {
+				ks, vs := e.vc.d.sortOf(mt.Key()), e.vc.d.sortOf(mt.Elem())
+				argSorts = append(argSorts, "Int", "(Array "+ks+" Bool)", "(Array "+ks+" "+vs+")")
+				continue
+			}
 		}
 		argSorts = append(argSorts, srt)
 	}
@@ -1385,6 +1416,12 @@ func (e *Env) specArgTerms(sf *SpecFunc, vals []SVal) []string {
 			if _, ok := typ.Underlying().(*types.Slice); ok {
 				v := vals[i]
 				ts = append(ts, e.contents(v), "(s-off "+v.t+")", "(s-len "+v.t+")")
+				continue
+			}
+			if mt, ok := typ.Underlying().(*types.Map); ok {
+				v := vals[i]
+				d, m := e.mapContents(v, mt)
+				ts = append(ts, v.t, d, m)
 				continue
 			}
 		}
@@ -1472,6 +1509,15 @@ func (e *Env) applySpecFunc(sf *SpecFunc, args []Expr) SVal {
 			if pt != nil && v.typ == nil {
 				v.typ = pt
 			}
+			if v.typ != nil && (sf.Recursive || sf.Opaque) {
+				if _, isSlice := v.typ.Underlying().(*types.Slice); isSlice && v.arr == "" {
+					// the contents are an explicit argument of the uninterpreted symbol
+					v.arr = e.contents(v)
+				}
+				if mt, isMap := v.typ.Underlying().(*types.Map); isMap && v.mdom == "" {
+					v.mdom, v.mval = e.mapContents(v, mt)
+				}
+			}
 			m[p.Name] = v
 		}
 		return m
@@ -1487,14 +1533,23 @@ func (e *Env) applySpecFunc(sf *SpecFunc, args []Expr) SVal {
 		e.noFnNames = saved
 		return r
 	}
-	// uninterpreted symbol
+	// uninterpreted symbol. The heap arrays its body reads (directly or through other spec
+	// functions) are extra arguments, so that applications in different states are different terms.
 	name := "spec." + sf.Name
+	deps := e.specDeps(sf, bind)
 	if _, ok := vc.d.funs[name]; !ok {
 		as, ret := e.specFuncSig(sf)
+		for _, d := range deps {
+			as = append(as, d.sort)
+		}
 		vc.d.declFun(name, fmt.Sprintf("(declare-fun %s (%s) %s)", name, strings.Join(as, " "), ret))
 	}
-	app := "(" + name + " " + strings.Join(e.specArgTerms(sf, vals), " ") + ")"
-	if len(sf.Params) == 0 {
+	argTerms := e.specArgTerms(sf, vals)
+	for _, d := range deps {
+		argTerms = append(argTerms, vc.heap(e.cur, d.name, d.sort))
+	}
+	app := "(" + name + " " + strings.Join(argTerms, " ") + ")"
+	if len(argTerms) == 0 {
 		app = name
 	}
 	res := SVal{t: app, typ: retTyp, sort: retSort}
@@ -1511,6 +1566,66 @@ func (e *Env) applySpecFunc(sf *SpecFunc, args []Expr) SVal {
 		e.addSide(fmt.Sprintf("(= %s %s)", app, body.t), app)
 	}
 	return res
+}
+
+type heapDep struct{ name, sort string }
+
+// specDeps computes (once per spec function) the heap arrays its body reads, by a dry
+// evaluation of the body whose output is discarded.
+func (e *Env) specDeps(sf *SpecFunc, bind func() map[string]SVal) []heapDep {
+	if sf.depsDone || sf.Body == nil {
+		return sf.deps
+	}
+	sf.depsDone = true
+	sf.deps = nil
+	vc := e.vc
+	savedLines, savedSide := len(vc.lines), len(e.side)
+	savedDecl := len(vc.d.funOrder)
+	savedRec := vc.recHeaps
+	// (savedRec stays active: for an enclosing dry evaluation these are reads of ITS body)
+	bound := bind() // argument preparation (reads made by the caller) is not part of the body
+	vc.recHeaps = map[string]string{}
+	saved, savedVars, savedU, savedF := e.noFnNames, e.vars, e.noUnfold, e.forceUnfold
+	e.noFnNames, e.noUnfold, e.forceUnfold = true, true, false
+	e.vars = bound
+	func() {
+		defer func() {
+			if r := recover(); r != nil {
+				// evaluation problems are reported by the real evaluation
+				_ = r
+			}
+		}()
+		e.eval(sf.Body)
+	}()
+	e.vars, e.noFnNames, e.noUnfold, e.forceUnfold = savedVars, saved, savedU, savedF
+	var names []string
+	for n := range vc.recHeaps {
+		names = append(names, n)
+	}
+	sort.Strings(names)
+	for _, n := range names {
+		sf.deps = append(sf.deps, heapDep{n, vc.recHeaps[n]})
+	}
+	if savedRec != nil {
+		for n, s := range vc.recHeaps {
+			savedRec[n] = s
+		}
+	}
+	vc.recHeaps = savedRec
+	vc.lines = vc.lines[:savedLines]
+	e.side = e.side[:savedSide]
+	// spec functions declared during the dry evaluation were declared with provisional
+	// (incomplete) heap arguments: forget those declarations
+	kept := vc.d.funOrder[:0:0]
+	for i, n := range vc.d.funOrder {
+		if i >= savedDecl && strings.HasPrefix(n, "spec.") {
+			delete(vc.d.funs, n)
+			continue
+		}
+		kept = append(kept, n)
+	}
+	vc.d.funOrder = kept
+	return sf.deps
 }
 
 // ---- hints ----
